@@ -1,3 +1,6 @@
+#[cfg(all(feature = "verif_shim", not(test)))]
+use crate::__verif::shim as std;
+
 use std::{
     cell::UnsafeCell,
     fmt,
